@@ -34,12 +34,13 @@ _cg_cache: Dict[int, CallGraph] = {}
 
 
 def callgraph(ctx: Ctx) -> CallGraph:
-    g = _cg_cache.get(id(ctx))
-    if g is None:
-        g = CallGraph(ctx.p, ctx.r)
-        _cg_cache.clear()
-        _cg_cache[id(ctx)] = g
-        ctx.rep.extra["call_graph_sites"] = dict(g.stats)
+    hit = _cg_cache.get(id(ctx))
+    if hit is not None and hit[0] is ctx:  # (the context is kept alive with its graph: an id() is only unique among live objects)
+        return hit[1]
+    g = CallGraph(ctx.p, ctx.r)
+    _cg_cache.clear()
+    _cg_cache[id(ctx)] = (ctx, g)
+    ctx.rep.extra["call_graph_sites"] = dict(g.stats)
     return g
 
 
